@@ -142,3 +142,119 @@ class SwitchStack (object):
 
   def sweep (self):
     self.sw.table.remove_expired_entries()
+
+
+# ---------------------------------------------------------------------------
+# controller side
+# ---------------------------------------------------------------------------
+class ScriptSock (object):
+  """Fake socket under a real of_01.Connection.  `rx` is the list of byte chunks the next recv()
+  calls hand out (a chunk longer than the recv size is handed out in pieces, like TCP would);
+  `tx` records what the controller wrote.  `send_script` optionally lists per-call outcomes:
+  int k = accept k bytes, "all", "eagain", "epipe"."""
+  def __init__ (self, name=("switch", 1)):
+    self.name = name
+    self.rx = []
+    self.tx = b""
+    self.sends = []          # (len offered, outcome) per send call
+    self.send_script = []
+    self.closed = False
+    self.shut = False
+    self.eof = False
+  def getpeername (self): return self.name
+  def fileno (self): return 77
+  def setblocking (self, b): pass
+  def recv (self, n, flags=0):
+    if not self.rx:
+      if self.eof: return b""
+      import socket, errno
+      raise socket.error(errno.EAGAIN, "would block")
+    c = self.rx.pop(0)
+    if len(c) > n:
+      self.rx.insert(0, c[n:]); c = c[:n]
+    return c
+  def send (self, data, flags=0):
+    import socket, errno
+    if self.closed or self.shut:
+      self.sends.append((len(data), "after-close"))
+      raise socket.error(errno.EBADF, "send on closed socket")
+    o = self.send_script.pop(0) if self.send_script else "all"
+    self.sends.append((len(data), o))
+    if o == "all": k = len(data)
+    elif o == "eagain": raise socket.error(errno.EAGAIN, "would block")
+    elif o == "epipe": raise socket.error(errno.EPIPE, "broken pipe")
+    else: k = min(int(o), len(data))
+    self.tx += bytes(data[:k])
+    return k
+  def shutdown (self, how): self.shut = True
+  def close (self): self.closed = True
+
+
+class StubDeferredSender (object):
+  """Inert stand-in for of_01.deferredSender (the real one is a thread; C20 drives the real one)."""
+  def __init__ (self):
+    self.sending = False
+    self.queued = []
+  def send (self, con, data): self.queued.append((con, data))
+  def kill (self, con): pass
+
+
+class ControllerStack (object):
+  """Fresh real OpenFlowNexus + arbiter on the (singleton) core, real of_01.Connection objects on
+  ScriptSocks.  Events raised on the nexus are recorded in self.events as (name, con index, detail)."""
+  NEXUS_EVENTS = ("ConnectionUp", "ConnectionDown", "PortStatus", "PacketIn", "ErrorIn", "BarrierIn",
+                  "FlowStatsReceived", "TableStatsReceived", "PortStatsReceived", "QueueStatsReceived",
+                  "AggregateFlowStatsReceived", "SwitchDescReceived", "FlowRemoved", "FeaturesReceived",
+                  "ConnectionHandshakeComplete", "RawStatsReply", "ConfigurationReceived")
+  def __init__ (self, clock=None):
+    core = boot()
+    import pox.openflow as ofm
+    import pox.openflow.of_01 as of01
+    self.core, self.ofm, self.of01 = core, ofm, of01
+    if clock is not None: of01.time = clock
+    self.nexus = ofm.OpenFlowNexus()
+    self.arbiter = ofm.OpenFlowConnectionArbiter()
+    core.components["openflow"] = self.nexus
+    core.components["OpenFlowConnectionArbiter"] = self.arbiter
+    self.deferred = StubDeferredSender()
+    of01.deferredSender = self.deferred
+    self.delayed = []
+    core.callDelayed = lambda t, f, *a, **k: self.delayed.append((t, f))
+    self.cons = []
+    self.events = []
+    for name in self.NEXUS_EVENTS:
+      ev = getattr(ofm, name, None)
+      if ev is not None and ev in self.nexus._eventMixin_events:
+        self.nexus.addListener(ev, self._mk(name))
+
+  def _mk (self, name):
+    def h (e):
+      c = getattr(e, "connection", None)
+      idx = self.cons.index(c) if c in self.cons else None
+      self.events.append((name, idx, e))
+    return h
+
+  def connect (self):
+    s = ScriptSock(("switch", len(self.cons) + 1))
+    c = self.of01.Connection(s)
+    self.cons.append(c)
+    return len(self.cons) - 1
+
+  def feed (self, i, data, read=True):
+    """Queue bytes on connection i's socket and call Connection.read() once per chunk."""
+    c = self.cons[i]
+    c.sock.rx.append(bytes(data))
+    if not read: return None
+    r = True
+    while c.sock.rx and r is not False:
+      r = c.read()
+    return r
+
+  def close (self, i):
+    """What OpenFlow_01_Task does when read() returns False / the socket errors."""
+    self.cons[i].close()
+
+  def take_tx (self, i):
+    s = self.cons[i].sock
+    d = s.tx; s.tx = b""
+    return d
